@@ -484,11 +484,21 @@ class Interp:
     def _ancestor_walk(self, s, m, st, frame, q):
         """`while a is not None: if a is X: <raise>; a = a.parent` with a = Q.parent on entry: the identity scan of Q's
         proper ancestors for X"""
-        var, x_expr, body = m
+        var, x_expr, body = m[0], m[1], m[2]
         for s1, x, exc in self._ev(x_expr, st, frame, s):
             if exc:
                 yield s1, ("raise", exc)
                 continue
+            if len(m) > 3:
+                # the walk also ends at `stop`: complete only if stop is the current parent of the node that is looked for
+                # (x is below its own parent, so it cannot be found at or above it - C01 at entry)
+                stop_role = s1.env.get(m[3])
+                cp = self.cur_parent(s1, x)
+                same = stop_role is not None and (stop_role == cp or self.known_identity(s1, stop_role, cp) is True or (
+                    stop_role == NONE and (self.known_identity(s1, cp, NONE) is True or ("hasnot", x, "parent") in s1.facts)))
+                if not same:
+                    raise AnalysisError("ancestor walk in %s ends early at `%s`, which is not the parent of the node it looks for" % (
+                        frame.func.where, m[3]))
             start = s1.env.get(var)
             empty = start == NONE or (start is not None and self.known_identity(s1, start, NONE) is True)
             for v in ((False,) if empty else (True, False)):
@@ -517,6 +527,12 @@ class Interp:
                 yield s1, ("raise", Exc("<useriter>", "useriter", ev))
             s1 = s1.copy()
             s1.emit(Event("LOOP", func, s, frame.id, a=seqrole, text=norm(s.iter)))
+            if seqrole == ("literal", ()):
+                # an empty literal: the body never runs
+                s1.emit(Event("LOOPEND", func, s, frame.id, a=seqrole, outcome=0))
+                for r in self._block(s.orelse, s1, frame):
+                    yield r
+                continue
             minimum = 1 if seqrole[0] == "chain" else 0
             for r in self._for_iter(s, s1, frame, seqrole, 0, minimum):
                 yield r
@@ -969,6 +985,23 @@ class Interp:
                 yield s1, (None if exc else ("unknown", norm(e))), exc
             return
         if isinstance(e, ast.IfExp):
+            # the raw children list read through the optional-field idiom, `X.__children if hasattr(X, "<field>") else <empty>`:
+            # an absent list is the same abstract value as an empty one (as in the lazy initialisation), so both arms are
+            # the children list of X
+            t = e.test
+            if isinstance(t, ast.Call) and isinstance(t.func, ast.Name) and t.func.id == "hasattr" and len(t.args) == 2 \
+                    and isinstance(t.args[1], ast.Constant) and t.args[1].value == self.link_children \
+                    and isinstance(e.body, ast.Attribute) and norm(e.body.value) == norm(t.args[0]) \
+                    and (mangle(frame.func.cls.name, e.body.attr) if frame.func.cls else e.body.attr) == self.link_children \
+                    and ((isinstance(e.orelse, (ast.Tuple, ast.List)) and not e.orelse.elts) or (isinstance(e.orelse, ast.Constant) and e.orelse.value is None)):
+                for s1, recv, exc in self._ev(t.args[0], st, frame, stmt):
+                    if exc:
+                        yield s1, None, exc
+                        continue
+                    s1 = s1.copy()
+                    s1.emit(Event("LISTREAD", func, stmt, frame.id, recv=recv))
+                    yield s1, ("list_of", recv), None
+                return
             for s1, v, exc in self._cond(e.test, st, frame, stmt):
                 if exc:
                     yield s1, None, exc
@@ -1125,8 +1158,8 @@ class Interp:
                         yield s3, ("tuple", role), None
                     elif role[0] == "list_of":
                         yield s1, ("snapshot", role[1], s1.epoch.get(role[1], 0)), None
-                    elif role[0] in ("tuple", "snapshot"):
-                        yield s1, role, None
+                    elif role[0] in ("tuple", "snapshot") or role == ("literal", ()):
+                        yield s1, role, None  # (a copy of the empty literal is the empty literal)
                     else:
                         yield s1, ("copy", role), None
                 return
@@ -1482,10 +1515,21 @@ def _is_identity_removal_helper(fnode):
 def _match_ancestor_walk(s):
     """While statement `while a is not None: if a is X: <body ending in raise/return>; a = a.parent` -> (a, X expr, body)"""
     t = s.test
+    stop = None
+    if isinstance(t, ast.BoolOp) and isinstance(t.op, ast.And) and len(t.values) == 2:
+        # `a is not None and a is not S`: the walk may also end at S (accepted only when S is the scanned-for node's own parent)
+        t, second = t.values
+        if isinstance(second, ast.Compare) and len(second.ops) == 1 and isinstance(second.ops[0], ast.IsNot) and isinstance(second.left, ast.Name) \
+                and isinstance(second.comparators[0], ast.Name):
+            stop = (second.left.id, second.comparators[0].id)
+        else:
+            return None
     if not (isinstance(t, ast.Compare) and len(t.ops) == 1 and isinstance(t.ops[0], ast.IsNot) and isinstance(t.left, ast.Name)
             and isinstance(t.comparators[0], ast.Constant) and t.comparators[0].value is None):
         return None
     a = t.left.id
+    if stop is not None and stop[0] != a:
+        return None
     if len(s.body) != 2 or not isinstance(s.body[0], ast.If) or s.body[0].orelse:
         return None
     iff, step = s.body
@@ -1501,6 +1545,8 @@ def _match_ancestor_walk(s):
     oth = [x for x in sides if not (isinstance(x, ast.Name) and x.id == a)]
     if len(var) != 1 or len(oth) != 1 or not iff.body or not isinstance(iff.body[-1], (ast.Raise, ast.Return)):
         return None
+    if stop is not None:
+        return a, oth[0], iff.body, stop[1]
     return a, oth[0], iff.body
 
 
